@@ -36,6 +36,8 @@ def _sig(f):
 def run(ctx):
     p = ctx.p
     typer = typer_for(ctx)
+    from .common import rule_format_templates
+    rule_format_templates(ctx, typer, [f for f in p.all_funcs if f.module.relpath in (S, CS)], "F5")
     # ---------------------------------------------------------------- F1
     for name in NAMES:
         w = p.modfunc(CS, name)
